@@ -26,5 +26,16 @@ CLAIMED["C15"] = {
              "only as far as the correspondence run shows (sampling: exhaustive on the stated small domain); no axioms."),
     "technique": "Coq proof over a hand Gallina model + vm_compute correspondence against the interpreter",
 }
+CLAIMED["C02"] = {
+    "text": ("Theorems in coq/Props/C02.v: int + - * are exact on Z, / is Z.quot (truncation toward zero), a % b satisfies |r| < |b| and b | a - r, "
+             "zero divisors give the language's error; on numeric operands the result is an int iff both are; NULL absorbs; and/or short-circuit "
+             "and reject non-booleans, not negates, a comparison chain is the conjunction of its adjacent pairs (all for every expression/operand, "
+             "no bound); every `is not P` / negated postfix branch of the parser is NodeNot of the positive branch (finite theorem over tables "
+             "regenerated from parse_pred_expr on every run). Precedence/associativity has no parser theorem yet: it is decided by the correspondence "
+             "(minimally parenthesised renderings of expression trees, every ordered operator pair) - partial."),
+    "note": ("Coq kernel + vm_compute; PrimFloat primitives (decimal results compared bit for bit, no theorem about rounding); hand models "
+             "Model/Arith.v + Model/Values.v tied by correspondence (sampling); tools/translate/pred_gen.py (fail-closed)."),
+    "technique": "Coq proof over hand + generated Gallina models, vm_compute correspondence against the interpreter",
+}
 
 NOT_APPLICABLE = {}
